@@ -144,10 +144,20 @@ func allowIP(ipFilter *ipfilter.IPFilter, ip string) bool {
 	return ipFilter.Allow(ip)
 }
 
+// routeCacheKey is the key of the route cache. It is a struct rather than the
+// concatenation of its fields, so that different (host, method, path) triples
+// can never share a cache entry.
+type routeCacheKey struct {
+	host, method, path string
+}
+
+func newRouteCacheKey(req *httpprot.Request) routeCacheKey {
+	return routeCacheKey{host: req.Host(), method: req.Method(), path: req.Path()}
+}
+
 func (mi *muxInstance) getRouteFromCache(req *httpprot.Request) *route {
 	if mi.cache != nil {
-		key := stringtool.Cat(req.Host(), req.Method(), req.Path())
-		if value, ok := mi.cache.Get(key); ok {
+		if value, ok := mi.cache.Get(newRouteCacheKey(req)); ok {
 			return value.(*route)
 		}
 	}
@@ -156,8 +166,7 @@ func (mi *muxInstance) getRouteFromCache(req *httpprot.Request) *route {
 
 func (mi *muxInstance) putRouteToCache(req *httpprot.Request, r *route) {
 	if mi.cache != nil {
-		key := stringtool.Cat(req.Host(), req.Method(), req.Path())
-		mi.cache.Add(key, r)
+		mi.cache.Add(newRouteCacheKey(req), r)
 	}
 }
 
